@@ -88,6 +88,16 @@ theorem consistency_sound (hlen : HashLen H) (D₁ D₂ : List (List UInt8)) (pr
   · left; rw [h]; exact List.take_prefix _ _
   · exact Or.inr h
 
+/-- For fixed sizes `0 < old ≤ new` and two DIFFERENT roots at most one consistency proof is accepted: any
+altered, dropped, duplicated or extra proof hash makes verification fail, unless a collision is exhibited.
+(With equal roots or old size 0 the verifier does not look at the proof, see `consistency_sound`.) -/
+theorem consistency_proof_unique (hlen : HashLen H) (m n : Nat) (r₁ r₂ : Hash) (p p' : List Hash)
+    (hne : r₁ ≠ r₂) (hm : m ≠ 0) (hr1 : r₁.length = 32)
+    (hp : ∀ y ∈ p, y.length = 32) (hp' : ∀ y ∈ p', y.length = 32)
+    (h1 : verifyConsistency H m n r₁ r₂ p = .ok ()) (h2 : verifyConsistency H m n r₁ r₂ p' = .ok ()) :
+    p = p' ∨ Collision H :=
+  Poly.Proofs.MerkleCons.verifyConsistency_unique H hlen m n r₁ r₂ p p' hne hm hr1 hp hp' h1 h2
+
 /-- Two committed lists with the same RFC 6962 root are the same list (any sizes), or a collision. -/
 theorem root_determines_list (hlen : HashLen H) (D₁ D₂ : List (List UInt8)) (h1 : D₁ ≠ []) (h2 : D₂ ≠ [])
     (h : mth H (D₁.map (hashLeaf H)) = mth H (D₂.map (hashLeaf H))) : D₁ = D₂ ∨ Collision H :=
